@@ -28,7 +28,8 @@ optimiser, i.e. the expressions on which the C07 theorems turn:
   RealSelectionConfiguration.sample_xconfig
     k_real_args          stochastic_universal_sampling(numpy.arange(len(decn)), decn, ...)   (labels first, weights second)
     k_real_size, k_real_axis
-  <Enc>SelectionProtocol.select for Enc in Subset, Real, Integer, Binary, SubsetMate, IntegerMate (prefix k_sel_<enc>_)
+  BinaryMate / RealMate SelectionConfiguration.sample_xconfig (prefix k_bmate_ / k_rmate_): size, replace / args, lookup as above
+  <Enc>SelectionProtocol.select for Enc in Subset, Real, Integer, Binary, SubsetMate, IntegerMate, BinaryMate, RealMate (prefix k_sel_<enc>_)
     k_sel_*_is_so / _is_mo     self.nobj == 1  /  self.nobj > 1
     k_sel_*_score              self.ndset_wt * self.ndset_trans(mosoln.soln_obj, **self.ndset_trans_kwargs)   (one front point)
     k_sel_*_pick               score.argmax()
@@ -320,7 +321,8 @@ def translate(repo, gen_dir):
     # ================================================================== Subset / Binary / SubsetMate: tiled_choice
     for tag, cls, first, mate in (("subset", "SubsetSelectionConfiguration", "self.xconfig_decn", False),
                                   ("binary", "BinarySelectionConfiguration", "options", False),
-                                  ("mate", "SubsetMateSelectionConfiguration", "self.xconfig_decn", True)):
+                                  ("mate", "SubsetMateSelectionConfiguration", "self.xconfig_decn", True),
+                                  ("bmate", "BinaryMateSelectionConfiguration", "options", True)):
         fn = P.find_function(repo, CFGDIR + cls + ".py", cls + ".sample_xconfig")
         cap = _match_body(fn, (["=options"] if first == "options" else []) + ["=out"] + (MATE_TAIL if mate else TAIL), cls)
         if first == "options":
@@ -338,7 +340,7 @@ def translate(repo, gen_dir):
         if mate:
             _need(_src(cap["!self.rng.shuffle"][0]) == "self.rng.shuffle(out)", cls + ": the shuffle is no longer self.rng.shuffle(out)")
             e = cap["=out"][1]
-            D("k_mate_lookup {M I R : Type}", LK, "R", _lookup_term(e, cls), "%s: out = %s" % (cls, _src(e)))
+            D("k_%s_lookup {M I R : Type}" % tag, LK, "R", _lookup_term(e, cls), "%s: out = %s" % (cls, _src(e)))
         else:
             tail(cap, cls, tag)
 
@@ -357,10 +359,25 @@ def translate(repo, gen_dir):
       "(%s, %s)" % tuple(aenv[_src(a)] for a in c.args), "%s: %s(%s, %s, ...)" % (cls, _src(c.func), _src(c.args[0]), _src(c.args[1])))
     D("k_real_size", ZZ, "(%s)" % " * ".join(["Z"] * len(kw["size"].elts)), _tuple_term(kw["size"].elts, Zc(shape_env)), "%s: size = %s" % (cls, _src(kw["size"])))
     tail(cap, cls, "real")
+    cls = "RealMateSelectionConfiguration"
+    fn = P.find_function(repo, CFGDIR + cls + ".py", cls + ".sample_xconfig")
+    cap = _match_body(fn, ["=out"] + MATE_TAIL, cls)
+    c = cap["=out"][0]
+    _need(isinstance(c, ast.Call) and _src(c.func) == "stochastic_universal_sampling", cls + ": the sample is not drawn by stochastic_universal_sampling")
+    kw = _kw(c, cls, ["size", "rng"], 2)
+    _need(_src(kw["rng"]) == "self.rng" and isinstance(kw["size"], ast.Tuple) and len(kw["size"].elts) == 1, cls + ": not stochastic_universal_sampling(a, p, size = (n,), rng = self.rng)")
+    for a in c.args:
+        _need(_src(a) in aenv, cls + ": argument `%s` of stochastic_universal_sampling is neither the labels nor the weights" % _src(a))
+    D("k_rmate_args {A B : Type}", [("labels", "A"), ("weights", "B")], "(%s * %s)" % tuple("A" if aenv[_src(a)] == "labels" else "B" for a in c.args),
+      "(%s, %s)" % tuple(aenv[_src(a)] for a in c.args), "%s: %s(%s, %s, ...)" % (cls, _src(c.func), _src(c.args[0]), _src(c.args[1])))
+    D("k_rmate_size", [("ncross", "Z")], "Z", _tuple_term(kw["size"].elts, Zc({"self.ncross": "ncross"})), "%s: size = %s" % (cls, _src(kw["size"])))
+    _need(_src(cap["!self.rng.shuffle"][0]) == "self.rng.shuffle(out)", cls + ": the shuffle is no longer self.rng.shuffle(out)")
+    e = cap["=out"][1]
+    D("k_rmate_lookup {M I R : Type}", LK, "R", _lookup_term(e, cls), "%s: out = %s" % (cls, _src(e)))
 
     # ================================================================== <Enc>SelectionProtocol.select
     for enc, tag, has_xmap in (("Subset", "subset", False), ("Real", "real", False), ("Integer", "integer", False), ("Binary", "binary", False),
-                               ("SubsetMate", "mate", True), ("IntegerMate", "imate", True)):
+                               ("SubsetMate", "mate", True), ("IntegerMate", "imate", True), ("BinaryMate", "bmate", True), ("RealMate", "rmate", True)):
         cls = enc + "SelectionProtocol"
         ccls = enc + "SelectionConfiguration"
         fn = P.find_function(repo, SELDIR + cls + ".py", cls + ".select")
